@@ -190,6 +190,8 @@ pub struct Gen<'a> {
     budget: i32,
     pub sites: Vec<(String, String)>,
     pub feats: BTreeMap<String, u64>,
+    /// loop variables / parameters that re-use the name of a variable visible where they are declared
+    shadow_names: std::collections::HashSet<String>,
 }
 
 const MAX_CDEPTH: u8 = 4;
@@ -261,6 +263,9 @@ impl<'a> Gen<'a> {
             }
             if v.level >= 2 {
                 self.feat(&format!("upvalue.nonlocal{}", v.level.min(3)));
+            }
+            if v.origin != Origin::Local && self.shadow_names.contains(&v.name) {
+                self.feat("capture.shadowing_variable");
             }
             match v.origin {
                 Origin::Param => self.feat("capture.param"),
@@ -366,6 +371,7 @@ impl<'a> Gen<'a> {
             match shadow {
                 Some(n) => {
                     self.feat("shadow.param");
+                    self.shadow_names.insert(n.clone());
                     params.push(n)
                 }
                 None => {
@@ -548,6 +554,9 @@ impl<'a> Gen<'a> {
         self.feat("statement_level_value");
         if fx.scopes.last().map(|s| s.cap).unwrap_or(false) {
             self.feat("junk_above_captured");
+            if fx.scopes.len() > 1 {
+                self.feat("junk_above_captured_in_loop_body");
+            }
         }
     }
     /// call one of the callables in sight (with a marker when its creating expression is known)
@@ -732,7 +741,9 @@ impl<'a> Gen<'a> {
             let c: Vec<Var> = self.visible(fx).into_iter().filter(|v| !v.global && v.k == K::Int).collect();
             if !c.is_empty() {
                 self.feat("shadow.loop_variable");
-                return c[self.rng.below(c.len() as u64) as usize].name.clone();
+                let n = c[self.rng.below(c.len() as u64) as usize].name.clone();
+                self.shadow_names.insert(n.clone());
+                return n;
             }
         }
         self.fresh(p)
@@ -1455,6 +1466,7 @@ pub fn gen_program(rng: &mut Rng, feats: &mut BTreeMap<String, u64>) -> (Module,
         budget,
         sites: vec![],
         feats: BTreeMap::new(),
+        shadow_names: Default::default(),
     };
     let total = g.budget;
     let mut functions: Vec<Vec<(String, Function)>> = paths.iter().map(|_| vec![]).collect();
@@ -1579,6 +1591,25 @@ fn case_term(m: &Module, host: &[&str], obs: &str, sites: &[(String, String)]) -
     )
 }
 
+/// hand-finalised witnesses of findings/C06 (they fail on a tree that still has R-2 / R-4), run first
+const CORPUS: [(&str, &str, &str); 3] = [
+    (
+        "S-1",
+        include_str!("../../findings/C06/S-1_per_iteration_closures_below_a_statement_value.json"),
+        include_str!("../../findings/C06/S-1_per_iteration_closures_below_a_statement_value.sites.json"),
+    ),
+    (
+        "S-2",
+        include_str!("../../findings/C06/S-2_closure_names_shadowing_loop_variable.json"),
+        include_str!("../../findings/C06/S-2_closure_names_shadowing_loop_variable.sites.json"),
+    ),
+    (
+        "S-3",
+        include_str!("../../findings/C06/S-3_loop_variable_shadows_parameter_in_submodule.json"),
+        include_str!("../../findings/C06/S-3_loop_variable_shadows_parameter_in_submodule.sites.json"),
+    ),
+];
+
 /// instruction budget of a run: longer runs are skipped as resource errors (they would also be long for
 /// the evaluation of the reference semantics inside Coq)
 const MAX_ITER: &str = "60000";
@@ -1587,9 +1618,20 @@ pub fn gen(a: &Args) {
     let mut rng = Rng::new(a.seed);
     let mut w = CaseWriter::new(&a.out, "C06Check", 10);
     let host: Vec<&str> = c01::MENU.to_vec();
+    let mut corpus: Vec<(&str, Module, Vec<(String, String)>)> = CORPUS
+        .iter()
+        .map(|(n, m, s)| (*n, serde_json::from_str::<Module>(m).expect("corpus module"), serde_json::from_str(s).expect("corpus sites")))
+        .collect();
+    corpus.reverse();
     while w.len() < a.n {
         let mut feats = BTreeMap::new();
-        let (m, sites) = gen_program(&mut rng, &mut feats);
+        let (m, sites) = match corpus.pop() {
+            Some((name, m, s)) => {
+                feats.insert(format!("corpus.{}", name), 1);
+                (m, s)
+            }
+            None => gen_program(&mut rng, &mut feats),
+        };
         out::describe_current(&format!("C06 program #{} (seed {})", w.len() + 1, a.seed));
         let cur = a.out.join("current.json");
         std::fs::write(&cur, serde_json::to_string(&m).unwrap()).unwrap();
@@ -1620,7 +1662,7 @@ pub fn gen(a: &Args) {
             w.count(k);
         }
         let term = case_term(&m, &host, &obs, &sites);
-        let id = w.push(term, feats.len() >= 12 && class != "resource");
+        let id = w.push(term, (feats.len() >= 12 || feats.keys().any(|k| k.starts_with("corpus."))) && class != "resource");
         if std::env::var("C06_KEEP").is_ok() {
             let _ = std::fs::copy(&cur, a.out.join(format!("prog_{}.json", id)));
             let _ = std::fs::write(a.out.join(format!("sites_{}.json", id)), serde_json::to_string(&sites).unwrap());
